@@ -1,7 +1,7 @@
 #!/usr/bin/env python3
 """apply each mutant of may_queue/src/mpsc_list_v1.rs in the /repo working tree, run ./check C19, restore.
 usage: mutants.py [name ...]"""
-import subprocess, sys, json, re, os
+import subprocess, sys, json, re, os, fcntl
 F = "/repo/may_queue/src/mpsc_list_v1.rs"
 M = {
  # M1a: remove() always unlinks (guard removed): dereferences a null `next` for the last entry
@@ -9,9 +9,9 @@ M = {
  # M1b: remove() unlinks the last entry too, without touching the null next
  "M1b_remove_last_unlinked": [("            if !next.is_null() {\n                // clear the link bit", "            if true {\n                // clear the link bit"),
                               ("                (*next).prev = prev;\n                prev.next.store", "                if !next.is_null() { (*next).prev = prev; }\n                prev.next.store")],
- # M2: the consumer position is read before the prev.next store
- "M2_tail_read_before_store": [("            (*prev).next.store(node, Ordering::Release);\n            #[cfg(may_verif)]\n            crate::verif::point(\"tail.read\", self.tail.get() as usize, 0);\n            let tail = *self.tail.get();\n",
-                                "            #[cfg(may_verif)]\n            crate::verif::point(\"tail.read\", self.tail.get() as usize, 0);\n            let tail = *self.tail.get();\n            (*prev).next.store(node, Ordering::Release);\n")],
+ # M2: revert of the fix b8fae1d: the consumer position is read AFTER the prev.next store (stale prev / ABA)
+ "M2_tail_read_after_store": [("            #[cfg(may_verif)]\n            crate::verif::point(\"tail.read\", self.tail.get() as usize, 0);\n            let tail = *self.tail.get();\n            (*prev).next.store(node, Ordering::Release);\n",
+                               "            (*prev).next.store(node, Ordering::Release);\n            #[cfg(may_verif)]\n            crate::verif::point(\"tail.read\", self.tail.get() as usize, 0);\n            let tail = *self.tail.get();\n")],
  # M3: pop clears the link bit of the successor instead of the stub
  "M3_pop_clears_wrong_link": [("            (*next).prev = ptr::null_mut();\n            // move the tail to next\n            #[cfg(may_verif)]\n            crate::verif::point(\"tail.write\", self.tail.get() as usize, next as usize as u64);\n            *self.tail.get() = next;\n\n            assert!((*tail).value.is_none());",
                                "            (*next).prev = ptr::null_mut();\n            (*next).refs &= REF_COUNT_MASK;\n            // move the tail to next\n            #[cfg(may_verif)]\n            crate::verif::point(\"tail.write\", self.tail.get() as usize, next as usize as u64);\n            *self.tail.get() = next;\n\n            assert!((*tail).value.is_none());"),
@@ -28,6 +28,9 @@ orig = open(F).read()
 res = {}
 names = sys.argv[1:] or list(M)
 for name in names:
+    lock = open("/tmp/repo.lock", "a+")
+    fcntl.flock(lock, fcntl.LOCK_EX)          # one mutant per exclusive lock (AGENT_GUIDE: /repo is shared)
+    orig = open(F).read()
     t = orig
     for a, b in M[name]:
         assert t.count(a) == 1, (name, a[:40], t.count(a))
@@ -42,6 +45,7 @@ for name in names:
     lines = [l for l in out.splitlines() if l.startswith(("VIOLATION", "OK", "KNOWN", "  "))]
     ev = json.load(open("/verif/evidence/C19.json"))["coverage"]
     print("=====", name, "rc=", p.returncode)
+    fcntl.flock(lock, fcntl.LOCK_UN); lock.close()
     print("\n".join(lines[:12]))
     print("   oracle_failures=%s rejected=%s static_diffs=%s search_runs=%s" % (ev["oracle_failures"], ev["traces_rejected"], ev["static_diffs"], ev["search_runs"]))
     sys.stdout.flush()
